@@ -59,6 +59,7 @@ pub const REACH: &[&str] = &[
     "zero_copy_rebuild",      // 13 borrowed &[u64] from the placed buffer fed to from_parts/from_words
     "known_failure_seen",     // 14
     "semi_index_from_bytes",  // 15 standard/simple SemiIndex::from_bytes on placed buffers
+    "empty_slice_misaligned_pointer", // 16 zero-length slice whose (dangling) pointer is not 8-aligned
 ];
 const R_WORDS: usize = 0;
 const R_BITS: usize = 1;
@@ -76,6 +77,7 @@ const R_REBUILT: usize = 12;
 const R_ZC: usize = 13;
 const R_KNOWN: usize = 14;
 const R_SEMI: usize = 15;
+const R_EMPTY_MISAL: usize = 16;
 
 pub const FAULTS: &[&str] = &[
     "placement_1", "placement_2", "placement_3", "placement_4", "placement_5", "placement_6", "placement_7",
@@ -225,6 +227,16 @@ impl Fails {
     }
 }
 
+fn merge(a: &Value, b: Value) -> Value {
+    let mut out = a.clone();
+    if let (Value::Object(o), Value::Object(e)) = (&mut out, b) {
+        for (k, v) in e {
+            o.insert(k, v);
+        }
+    }
+    out
+}
+
 fn caught<T>(f: impl FnOnce() -> T) -> Result<T, String> {
     match catch_unwind(AssertUnwindSafe(f)) {
         Ok(v) => Ok(v),
@@ -240,37 +252,43 @@ fn caught<T>(f: impl FnOnce() -> T) -> Result<T, String> {
 fn check_slice(bytes: &[u8], want: &[u64], how: &str, obs: &mut Obs, fails: &mut Fails) -> Option<Vec<u64>> {
     let al = bytes.as_ptr() as usize % 8;
     let mut owned = None;
+    // `nonempty` separates the recorded known findings (a misaligned NON-EMPTY slice cannot
+    // be borrowed as &[u64]) from an empty slice, which every entry point must accept.
+    let shape = json!({"len": bytes.len(), "nonempty": !bytes.is_empty()});
+    if bytes.is_empty() && al != 0 {
+        obs.reach.hit(R_EMPTY_MISAL);
+    }
     match caught(|| bytes_to_words_vec(bytes)) {
         Ok(v) => {
             if v == want {
                 obs.reach.hit(R_VEC);
                 owned = Some(v);
             } else {
-                fails.push("bytes_to_words_vec", al, how, "mismatch:bytes_to_words_vec".into(), json!({"got_len": v.len(), "want_len": want.len()}));
+                fails.push("bytes_to_words_vec", al, how, "mismatch:bytes_to_words_vec".into(), merge(&shape, json!({"got_len": v.len(), "want_len": want.len()})));
             }
         }
-        Err(class) => fails.push("bytes_to_words_vec", al, how, class, json!({})),
+        Err(class) => fails.push("bytes_to_words_vec", al, how, class, shape.clone()),
     }
     match caught(|| try_bytes_to_words(bytes).map(<[u64]>::to_vec)) {
         Ok(Some(v)) => {
             if v == want {
                 obs.reach.hit(R_TRY);
             } else {
-                fails.push("try_bytes_to_words", al, how, "mismatch:try_bytes_to_words".into(), json!({}));
+                fails.push("try_bytes_to_words", al, how, "mismatch:try_bytes_to_words".into(), shape.clone());
             }
         }
-        Ok(None) => fails.push("try_bytes_to_words", al, how, "mismatch:try_bytes_to_words_none_for_good_length".into(), json!({})),
-        Err(class) => fails.push("try_bytes_to_words", al, how, class, json!({})),
+        Ok(None) => fails.push("try_bytes_to_words", al, how, "mismatch:try_bytes_to_words_none_for_good_length".into(), shape.clone()),
+        Err(class) => fails.push("try_bytes_to_words", al, how, class, shape.clone()),
     }
     match caught(|| bytes_to_words(bytes).to_vec()) {
         Ok(v) => {
             if v == want {
                 obs.reach.hit(R_BORROW);
             } else {
-                fails.push("bytes_to_words", al, how, "mismatch:bytes_to_words".into(), json!({}));
+                fails.push("bytes_to_words", al, how, "mismatch:bytes_to_words".into(), shape.clone());
             }
         }
-        Err(class) => fails.push("bytes_to_words", al, how, class, json!({})),
+        Err(class) => fails.push("bytes_to_words", al, how, class, shape.clone()),
     }
     owned
 }
@@ -561,6 +579,14 @@ impl C31 {
             }
             check_slice(slice, &main_words, "sub_slice_after_header", obs, &mut fails);
         }
+        // ---- zero-length slices at every residue, and the dangling pointer of an empty Vec ----
+        // (0 is a multiple of 8: an empty index file, the BP part of a whitespace-only document)
+        let backing = vec![0u8; 16];
+        for o in 0usize..8 {
+            check_slice(&backing[o..o], &[], "empty_sub_slice", obs, &mut fails);
+        }
+        let empty_vec: Vec<u8> = Vec::new();
+        check_slice(&empty_vec, &[], "empty_vec", obs, &mut fails);
         fails.all
     }
 }
@@ -597,6 +623,7 @@ impl Scenario for C31 {
             "rebuilt_queries_equal",
             "zero_copy_rebuild",
             "semi_index_from_bytes",
+            "empty_slice_misaligned_pointer",
         ]
     }
 
